@@ -986,3 +986,531 @@ Section Concrete.
     all: try exact I.
   Qed.
 End Concrete.
+
+Section Concrete2.
+  Variables (g : glob) (ls : list loc) (t : nat).
+  Hypothesis IA : InvA g ls.
+  Hypothesis IB : InvB g ls.
+  Hypothesis IC : InvC g ls.
+
+  Lemma stepC_E_s1 pr it c nx0 pv nxt h its0 g1 :
+    nth_error ls t = Some (Loc pr (E_s1 it c nx0 pv nxt) h its0) ->
+    (match pv with Some p => g1 = setn g p (n_next (gnode g p) nxt) | None => g1 = with_head g nxt end) ->
+    InvC (commit g1 (MErase c)) (upd ls t (Loc pr (E_s2 it c nx0 pv nxt) h its0)).
+  Proof.
+    intros Hl Hg1. destruct (holder_GS g ls t IA _ Hl eq_refl) as (G & Ehp & Emt). cbn [at_] in *.
+    pose proof (gs_hold _ _ G) as H. cbn [hold_ok] in H. destruct H as (Hdc & l1 & l2 & El & Hpv & Hnxt).
+    pose proof (gs_nodup _ _ G) as ND. rewrite El in ND. destruct (NoDup_mid _ _ _ ND) as (Hc1 & Hc2 & ND').
+    destruct (gs_fwd _ _ G) as [_ FB]. rewrite El in FB. apply chn_app in FB. destruct FB as [_ FB]. cbn [chn] in FB. destruct FB as [FBc _].
+    assert (Hcl : In c (lst g)) by (rewrite El; apply in_or_app; right; left; reflexivity).
+    assert (Hl2 : forall m, hd_or l2 None = Some m -> In m (lst g) /\ m <> c).
+    { intros m E. destruct l2 as [|b r]; [discriminate|]. cbn in E. inversion E; subst b. split; [rewrite El; apply in_or_app; right; right; left; reflexivity|].
+      intros ->. apply Hc2. left. reflexivity. }
+    set (g' := commit g1 (MErase c)). set (l' := Loc pr (E_s2 it c nx0 pv nxt) h its0).
+    assert (Views : lst g1 = lst g /\ zlog g1 = zlog g /\ unfixed g1 = unfixed g /\ wmtx g1 = wmtx g /\
+                    (forall k, dl g1 k = dl g k) /\ (forall k, isnode g1 k = isnode g k) /\ (forall k, cs_of g1 k = cs_of g k) /\
+                    (forall z, grec g1 z = grec g z) /\ (forall k, pv <> Some k -> nx g1 k = nx g k) /\
+                    (forall p, pv = Some p -> nx g1 p = nxt)).
+    { destruct pv as [p|]; subst g1.
+      - assert (Hip : isnode g p = true).
+        { apply (gs_nodes _ _ G). rewrite El. apply in_or_app. left. apply last_opt_In. auto. }
+        destruct (set_next_views g p nxt Hip) as (EN & EB & ED & EP).
+        destruct (nviews_setn g p (n_next (gnode g p) nxt) Hip) as [VI VR VC VH VT VL VM VLo VHi VX].
+        destruct (modc_fields g p (set_body (BNode (n_next (gnode g p) nxt)))) as (_ & _ & _ & _ & _ & _ & F7 & _ & _ & _ & _ & F12).
+        repeat split; auto.
+        + intros z. apply grec_setn. exact Hip.
+        + intros k Hk. rewrite EN. destruct (Nat.eqb_spec k p) as [->|]; [congruence|reflexivity].
+        + intros q Hq. inversion Hq; subst q. rewrite EN, Nat.eqb_refl. reflexivity.
+      - repeat split; auto. intros p Hp. discriminate. }
+    destruct Views as (V1 & V2 & V3 & V4 & V5 & V6 & V7 & V8 & V9 & V10).
+    assert (Hp2 : hpc g' (upd ls t l') = E_s2 it c nx0 pv nxt).
+    { apply (hpc_self g' ls t _ l' Hl). change (wmtx g') with (wmtx g1). rewrite V4. exact Emt. }
+    eapply (InvC_unlink g g' ls t _ l' c pv IA IB IC Hl Hcl); try reflexivity.
+    all: try (intros k; change (lst g') with (remove_nat c (lst g1)); rewrite V1; apply remove_nat_In).
+    all: try (change (zlog g') with (zlog g1); exact V2).
+    all: try (change (unfixed g') with (unfixed g1); exact V3).
+    all: try (intros k Hk; change (nx g' k) with (nx g1 k); apply V9; congruence).
+    all: try (intros k Hk m Hm; change (nx g' k) with (nx g1 k) in Hm; rewrite (V10 k Hk), Hnxt in Hm;
+              change (lst g') with (remove_nat c (lst g1)); rewrite V1; apply remove_nat_In; apply Hl2; exact Hm).
+    all: try (intros m Hm; change (lst g') with (remove_nat c (lst g1)); rewrite V1; apply remove_nat_In; apply Hl2; rewrite <- FBc; exact Hm).
+    all: try (intros E; rewrite <- E in Hpv; symmetry in Hpv; apply last_opt_In in Hpv; contradiction).
+    all: try (intros k; change (dl g' k) with (dl g1 k); apply V5).
+    all: try (intros k; change (isnode g' k) with (isnode g1 k); apply V6).
+    all: try (intros k; change (cs_of g' k) with (cs_of g1 k); apply V7).
+    all: try (intros z; change (grec g' z) with (grec g1 z); apply V8).
+    all: try exact Hdc.
+    all: try (unfold enode; rewrite Ehp; reflexivity).
+    all: try (unfold enode; rewrite Hp2; reflexivity).
+    all: try (rewrite Hp2; reflexivity).
+    all: try exact I.
+  Qed.
+
+  Lemma reclaimer_alone l n : nth_error ls t = Some l -> region_pc (at_ l) = Some n ->
+    forall u, u <> t -> past_dd (pcof ls u) n = false.
+  Proof.
+    intros Hl Hn u Hu. destruct (past_dd (pcof ls u) n) eqn:E; [exfalso|reflexivity].
+    unfold pcof, locof in E. destruct (nth_error ls u) as [lu|] eqn:Eu; [|discriminate].
+    assert (region_pc (at_ lu) = Some n) as Ru by (destruct (at_ lu); cbn in E; try discriminate; apply Nat.eqb_eq in E; subst; reflexivity).
+    apply Hu. apply (one_reclaimer g ls IA IB u t lu l n n Eu Hl Ru Hn).
+  Qed.
+
+  Lemma stepC_U_dd pr n d h its0 : nth_error ls t = Some (Loc pr (U_dd n (Some d)) h its0) ->
+    InvC (fst (do_destroy g d)) (upd ls t (Loc pr (U_df n (Some d)) h its0)).
+  Proof.
+    intros Hl. set (l := Loc pr (U_dd n (Some d)) h its0) in *.
+    pose proof (b_thr _ _ IB t l Hl) as T. unfold thrB in T. cbn [at_ l] in T. destruct T as (Rg & Cs & Ed). symmetry in Ed.
+    destruct Rg as (Rn & Rg').
+    assert (Hcd : cs_of g d = Some Constr).
+    { apply (c_pend _ _ IC n d Rn Ed). intros u. destruct (Nat.eq_dec u t) as [->|Hu]; [rewrite (pcof_at _ _ _ Hl); reflexivity|].
+      apply (reclaimer_alone l n Hl eq_refl u Hu). }
+    destruct (destroy_fields g d) as (F1 & F2 & F3 & F4 & F5 & F6 & F7 & F8 & F9 & F10 & F11 & F12).
+    eapply (InvC_nodecs g _ ls t l _ n d IA IB IC Hl eq_refl Ed); auto; try reflexivity.
+    - intros k. unfold nx. rewrite gnode_destroy. reflexivity.
+    - intros k. unfold dl. rewrite gnode_destroy. reflexivity.
+    - intros k. apply isnode_destroy.
+    - intros z. apply grec_destroy.
+    - intros k Hk. rewrite cs_of_destroy. destruct (Nat.eqb_spec k d); [contradiction|reflexivity].
+    - apply (hpc_other g _ ls t l _ IA Hl eq_refl F4).
+    - cbn. apply Nat.eqb_refl.
+    - intros x Hx. cbn. split; [reflexivity|apply Nat.eqb_neq; auto].
+    - unfold thrC. cbn [at_]. rewrite cs_of_destroy, Nat.eqb_refl, Hcd. reflexivity.
+  Qed.
+
+  Lemma stepC_U_df pr n d h its0 : nth_error ls t = Some (Loc pr (U_df n (Some d)) h its0) ->
+    InvC (fst (do_dealloc g d)) (upd ls t (Loc pr (U_ln n) h its0)).
+  Proof.
+    intros Hl. set (l := Loc pr (U_df n (Some d)) h its0) in *.
+    pose proof (b_thr _ _ IB t l Hl) as T. unfold thrB in T. cbn [at_ l] in T. destruct T as (Rg & Cs & Ed). symmetry in Ed.
+    pose proof (c_thr _ _ IC t l Hl) as Tc. unfold thrC in Tc. cbn [at_ l] in Tc.
+    destruct (dealloc_fields g d) as (F1 & F2 & F3 & F4 & F5 & F6 & F7 & F8 & F9 & F10 & F11 & F12).
+    eapply (InvC_nodecs g _ ls t l _ n d IA IB IC Hl eq_refl Ed); auto; try reflexivity.
+    - intros k. unfold nx. rewrite gnode_dealloc. reflexivity.
+    - intros k. unfold dl. rewrite gnode_dealloc. reflexivity.
+    - intros k. apply isnode_dealloc.
+    - intros z. apply grec_dealloc.
+    - intros k Hk. rewrite cs_of_dealloc. destruct (Nat.eqb_spec k d); [contradiction|reflexivity].
+    - apply (hpc_other g _ ls t l _ IA Hl eq_refl F4).
+    - cbn. apply Nat.eqb_refl.
+    - intros x Hx. cbn. split; apply Nat.eqb_neq; auto.
+    - unfold thrC. cbn [at_]. intros k Hk. unfold znd in Hk. rewrite grec_dealloc in Hk. fold (znd g n) in Hk.
+      assert (k = d) by congruence. subst k. rewrite cs_of_dealloc, Nat.eqb_refl, Tc. reflexivity.
+  Qed.
+
+  Lemma stepC_U_zf pr n nxt h its0 : nth_error ls t = Some (Loc pr (U_zf n nxt) h its0) ->
+    let g' := fst (do_dealloc g n) in
+    InvC g' (upd ls t (Loc pr (match nxt with Some m => reclaim_at g' m | None => U_stn end) h its0)).
+  Proof.
+    intros Hl g'. set (l := Loc pr (U_zf n nxt) h its0) in *.
+    pose proof (b_thr _ _ IB t l Hl) as T. unfold thrB in T. cbn [at_ l] in T. destruct T as (Rg & Cs & Ed).
+    destruct (dealloc_fields g n) as (F1 & F2 & F3 & F4 & F5 & F6 & F7 & F8 & F9 & F10 & F11 & F12). fold g' in F1, F2, F3, F4, F5, F6, F7, F8, F9, F10, F11, F12.
+    eapply (InvC_zf g g' ls t l _ n nxt IA IB IC Hl eq_refl); auto; try reflexivity.
+    - intros k. unfold nx, g'. rewrite gnode_dealloc. reflexivity.
+    - intros k. unfold dl, g'. rewrite gnode_dealloc. reflexivity.
+    - intros k. apply isnode_dealloc.
+    - intros z. apply grec_dealloc.
+    - intros k Hk. unfold g'. rewrite cs_of_dealloc. destruct (Nat.eqb_spec k n); [contradiction|reflexivity].
+    - unfold g'. rewrite cs_of_dealloc, Nat.eqb_refl, Cs. reflexivity.
+    - apply (hpc_other g g' ls t l _ IA Hl eq_refl F4).
+    - unfold nrefs. cbn [its at_]. destruct nxt; [rewrite pc_refs_reclaim|]; reflexivity.
+    - destruct nxt; [apply thrC_reclaim_at|exact I].
+  Qed.
+End Concrete2.
+
+(* ---------- the step lemma ---------- *)
+Ltac recsame_tac2 :=
+  repeat first [apply recsame_fault | apply recsame_misuse | apply recsame_mtx | apply recsame_head | apply recsame_tail
+               | apply recsame_pos | apply recsame_commit];
+  first [ apply recsame_refl | apply recsame_alloc_node | apply recsame_null
+        | (apply recsame_setn; eauto) | (apply recsame_construct_node; eauto)
+        | (apply recsame_destroy_node; eauto) | (apply recsame_dealloc_node; eauto) ].
+Lemma InvC_step : forall g ls t c l g' l' es,
+  InvA g ls -> InvB g ls -> InvC g ls -> nth_error ls t = Some l -> tstep t c g l = Some (g', l', es) -> InvC g' (upd ls t l').
+Proof.
+  intros g ls t c l g' l' es IA IB IC Hl Hs.
+  pose proof (b_thr _ _ IB t l Hl) as Tt. pose proof (a_thr _ _ IA t l Hl) as Ta. pose proof (c_thr _ _ IC t l Hl) as Tc.
+  destruct l as [pr p h its0]. destruct p.
+  all: try (destruct (t_unl _ _ Ta eq_refl) as (w0 & z0 & Eh0); cbn [hnd] in Eh0; subst h).
+  all: step_cases2 Hs; fold_fst; cbn [own_rec own_w hnd] in *.
+  (* impossible branches: every cell a step touches is alive *)
+  all: try (match goal with H : okn _ ?k = false |- _ =>
+              exfalso; rewrite (node_access_ok _ ls t _ k IA IB IC Hl eq_refl) in H; discriminate end).
+  all: try (match goal with H : okz _ ?k = false |- _ =>
+              exfalso; rewrite (log_access_ok _ ls t _ k (conj IA IB) Hl eq_refl) in H; discriminate end).
+  (* impossible branches: the own record is alive *)
+  all: try (exfalso; pose proof (okz_own g ls t _ IA IB Hl eq_refl) as Ok; cbn [own_rec hnd] in Ok; congruence).
+  (* 1. non-holder steps that change nothing InvC can see *)
+  all: try (
+    match type of IA with InvA ?g _ => match goal with |- InvC ?gg (upd _ _ ?ll) =>
+      assert (SV : sameV g gg None) by (repeat first [apply sameV_fault | apply sameV_misuse]; first [apply sameV_refl | apply sameV_null]);
+      assert (RS : recsame g gg None) by recsame_tac2;
+      destruct (nh_views g gg ls t _ ll None IA IB IC Hl eq_refl (ltac:(cbn [at_]; rewrite ?holds_body, ?holds_reclaim; reflexivity))
+                  (ltac:(autorewrite with wm; reflexivity)) RS (or_introl eq_refl)
+                  (fun k Hk => v_cs _ _ _ SV k Hk (ltac:(discriminate)))) as [En Pn];
+      eapply (InvC_frameV2 g gg ls t _ ll None IA IB IC Hl SV En Pn)
+    end end;
+    [ cbn [at_ past_dd]; rewrite ?in_unlock_reclaim; intros z1 Hz1; first [discriminate | exact Hz1 | idtac]
+    | intros; discriminate
+    | 
+    | ]).
+  (* thrC of the new pc *)
+  all: try (apply thrC_reclaim_at).
+  all: try (unfold thrC in *; cbn [at_] in *; first [exact I | exact Tc]).
+  (* references: unchanged, or an iterator value copied into a register *)
+  all: try (match goal with |- (forall w r, hnd ?ll = _ -> _) /\ _ => apply (refs_sub _ ls t _ ll IC Hl eq_refl) end; unfold nrefs; cbn [its at_ pc_refs]; rewrite ?pc_refs_reclaim, ?pc_refs_body, ?app_nil_r;
+            intros c1 Hc1; first [exact Hc1 | apply in_app_or in Hc1; destruct Hc1 as [Hc1|[<-|[]]]; [exact Hc1|eapply getit_In; eassumption]]).
+  all: try (match goal with |- (forall w r, hnd ?ll = _ -> _) /\ _ => apply (refs_sub _ ls t _ ll IC Hl eq_refl) end; unfold nrefs; cbn [its at_ pc_refs];
+            intros c1 Hc1; apply in_app_or in Hc1; destruct Hc1 as [Hc1|Hc1]; [apply in_or_app; left; exact Hc1|];
+            cbn in Hc1; destruct Hc1 as [<-|[]]; apply in_or_app; left; eapply getit_In; eassumption).
+  (* a handle is created / dropped without having registered: no references *)
+  all: try (split; [intros w1 r1 E1; discriminate|]; intros _; cbn [nrefs its at_ pc_refs app];
+            first [reflexivity | (pose proof (c_noref _ _ IC t _ Hl) as Hn0; cbn [hnd nrefs its at_ pc_refs] in Hn0; rewrite app_nil_r in *; apply Hn0; intros w1 r1 E1; discriminate)]).
+  all: try (split; [intros w1 r1 E1; discriminate|intros _; pose proof (c_noref _ _ IC t _ Hl) as Hn0; apply Hn0; intros w1 r1 E1; discriminate]).
+  all: try (match goal with |- (forall w r, hnd ?ll = _ -> _) /\ _ => apply (refs_sub _ ls t _ ll IC Hl eq_refl) end; unfold nrefs; cbn [its at_ pc_refs];
+            intros c1 Hc1; apply in_app_or in Hc1; destruct Hc1 as [Hc1|[]]; apply in_or_app; left; exact Hc1).
+  (* begin / ++ : the new iterator value is the list head, resp. the successor of the current node *)
+  all: try (match goal with |- (forall w r, hnd ?ll = _ -> _) /\ _ =>
+              apply (refs_new _ ls t _ ll IA IB IC Hl eq_refl) end;
+            [ first [ eexists; eexists; reflexivity | exact Tc
+                    | apply (refs_registered _ ls t _ c0 IC Hl); unfold nrefs; cbn [its at_ pc_refs]; apply in_or_app; right; left; reflexivity ]
+            | unfold nrefs; cbn [its at_ pc_refs]; intros c1 Hc1; rewrite app_nil_r in Hc1; apply its_refs_setit in Hc1;
+              destruct Hc1 as [Hc1|Hc1]; [|left; apply in_or_app; left; exact Hc1] ]).
+  all: try (exact (thrC_reclaim_at g pr n0 _ its0)).
+  all: try (unfold thrB in Tt; cbn [at_] in Tt; destruct Tt as (_ & _ & Ed); intros k Hk; congruence).
+  all: try (right; right; exists c0; split; [apply in_or_app; right; left; reflexivity|exact Hc1]).
+  all: try (right; left; apply (head_in_lst _ _ _ (a_gs _ _ IA)); exact Hc1).
+  all: try (unfold thrC; cbn [at_ hnd]; eexists; eexists; reflexivity).
+  all: try (unfold thrC, thrB in *; cbn [at_] in *; destruct Tt as (_ & _ & Ed); intros k Hk; change (znd (fst (null_call g K_DEALLOC)) n) with (znd g n) in Hk; congruence).
+  (* 2. non-holder steps on a private record, or on the own / pointer record *)
+  all: try (
+    unfold thrB in Tt; cbn [at_ hnd] in Tt; try unfold privR in Tt;
+    match goal with |- InvC ?gg (upd _ _ ?ll) =>
+      assert (SV : sameV g gg None) by
+        (repeat apply sameV_fault;
+         first [ apply sameV_alloc; [intros z1 H1; apply (zlog_lt _ ls z1 IB H1)|right; eexists; reflexivity]
+               | apply sameV_construct_rec; tauto
+               | apply sameV_setz_priv; tauto
+               | (destruct Tt as ((Rn0 & _) & Cs0 & _); apply sameV_destroy_rec; [apply (b_rec _ _ IB); apply inlog_In; exact Rn0|exact Cs0])
+               | apply sameV_setz_own; [apply (b_rec _ _ IB); apply (own_in_log g ls t _ IA IB Hl eq_refl)|reflexivity|cbn; auto] ]);
+      assert (HZ : forall z1, priv_rec (hpc g ls) = Some z1 -> znd gg z1 = znd g z1) by
+        (first [ eapply (znd_other_priv g gg ls t _ _ IA IB Hl eq_refl);
+                 [ repeat apply recsame_fault;
+                   first [ apply recsame_alloc_rec; intros z2 H2; apply (zlog_lt _ ls z2 IB H2)
+                         | apply recsame_construct_rec; tauto | apply recsame_setz; tauto ]
+                 | first [right; left; reflexivity | right; right; reflexivity] ]
+               | intros z1 H1; destruct (holder_priv_notin g ls z1 IB H1) as [N1 N2]; unfold znd;
+                 first [ rewrite grec_destroy; reflexivity
+                       | (rewrite grec_setz_ne; [reflexivity|]; intros ->; apply N1; apply (own_in_log g ls t _ IA IB Hl eq_refl)) ] ]);
+      destruct (nh_views2 g gg ls t _ ll IA IB IC Hl eq_refl eq_refl (ltac:(autorewrite with wm; reflexivity)) HZ
+                  (fun k Hk => v_cs _ _ _ SV k Hk (ltac:(discriminate)))) as (En & Pn & _);
+      eapply (InvC_frameV2 g gg ls t _ ll None IA IB IC Hl SV En Pn)
+    end;
+    [ cbn [at_ past_dd]; intros z1 Hz1; first [discriminate | exact Hz1]
+    | intros; discriminate
+    | 
+    | ]).
+  all: try (unfold thrC; cbn [at_]; exact I).
+  all: try (match goal with |- (forall w r, hnd ?ll = _ -> _) /\ _ => apply (refs_sub _ ls t _ ll IC Hl eq_refl) end;
+            intros c1 Hc1; exact Hc1).
+  all: try (split; [intros w1 r1 E1; discriminate|intros _; reflexivity]).
+  (* 3. successful CAS on the log head *)
+  all: try (
+    match goal with |- InvC (with_zlog (with_zhead ?g (Some ?zz)) _) (upd _ _ {| prog := _; at_ := body_pc ?oo; hnd := _; its := _ |}) =>
+      unfold thrB in Tt; cbn [at_ hnd] in Tt; destruct Tt as ([Q1 Q2] & Q3 & Q4 & Q5 & (w1 & Q6 & Q7)); subst h; cbn [own_w hnd];
+      eapply (InvC_rpush g ls t _ _ zz IA IB IC Hl Q2 Q3 (fun x => eq_refl) (thrC_body g pr oo w1 zz its0) w1 Q4);
+      [ apply (hpc_other g _ ls t _ _ IA Hl eq_refl eq_refl)
+      | reflexivity | reflexivity
+      | unfold nrefs; cbn [its at_]; rewrite pc_refs_body, app_nil_r;
+        pose proof (c_noref _ _ IC t _ Hl) as Hn0; unfold nrefs in Hn0; cbn [its at_ pc_refs hnd] in Hn0; rewrite app_nil_r in Hn0;
+        apply Hn0; intros w2 r2 E2; discriminate ]
+    end).
+  all: try (
+    match goal with |- InvC (with_zlog (with_zhead ?g (Some ?zz)) _) (upd _ _ {| prog := ?pr; at_ := E_unlock ?it ?nx0; hnd := ?h; its := ?its0 |}) =>
+      unfold thrB in Tt; cbn [at_ hnd] in Tt; destruct Tt as ([Q1 Q2] & Q3 & Q4 & Q5 & (k1 & Q6 & Q7));
+      destruct (h_views g (with_zlog (with_zhead g (Some zz)) (zz :: zlog g)) ls t _ {| prog := pr; at_ := E_unlock it nx0; hnd := h; its := its0 |} IA Hl eq_refl eq_refl) as (Hp1 & Hp2 & Hm);
+      eapply (InvC_epush g ls t _ {| prog := pr; at_ := E_unlock it nx0; hnd := h; its := its0 |} zz IB IC Hl Q2 Q3 (fun x => eq_refl) I k1);
+      [ unfold enode; rewrite Hp1; exact Q6 | exact Q6 | exact Q4
+      | unfold enode; rewrite Hp2; reflexivity | rewrite Hp2; reflexivity | reflexivity | reflexivity ]
+    end).
+  (* 4. lock / unlock *)
+  all: try (
+    match type of Hl with nth_error _ _ = Some {| prog := _; at_ := ?pp; hnd := _; its := _ |} =>
+      match pp with P_lock _ => idtac | E_lock _ _ => idtac end end;
+    match goal with |- InvC ?gg (upd _ _ ?ll) =>
+      assert (SV : sameV g gg None) by (apply sameV_mtx, sameV_refl);
+      assert (Hp1 : hpc g ls = Idle) by (apply hpc_free; assumption);
+      assert (Hp2 : hpc gg (upd ls t ll) = at_ ll) by (apply (hpc_self gg ls t _ ll Hl); reflexivity);
+      eapply (InvC_frameV2 g gg ls t _ ll None IA IB IC Hl SV)
+    end;
+    [ unfold enode; rewrite Hp1, Hp2; reflexivity
+    | rewrite Hp2; cbn; intros n1 E1; discriminate
+    | cbn [at_ past_dd]; intros; discriminate
+    | intros; discriminate
+    | match goal with |- (forall w r, hnd ?ll = _ -> _) /\ _ => apply (refs_sub _ ls t _ ll IC Hl eq_refl) end; intros c1 Hc1; exact Hc1
+    | unfold thrC; cbn [at_]; exact I ]).
+  all: try (
+    match type of Hl with nth_error _ _ = Some {| prog := _; at_ := ?pp; hnd := _; its := _ |} =>
+      match pp with P_unlock => idtac | E_unlock _ _ => idtac end end;
+    match goal with |- InvC ?gg (upd _ _ ?ll) =>
+      assert (SV : sameV g gg None) by (apply sameV_mtx, sameV_refl);
+      destruct (hpc_holder g ls t _ IA Hl eq_refl) as [Hp1 Hm];
+      assert (Hp2 : hpc gg (upd ls t ll) = Idle) by (apply hpc_free; reflexivity);
+      eapply (InvC_frameV2 g gg ls t _ ll None IA IB IC Hl SV)
+    end;
+    [ unfold enode; rewrite Hp1, Hp2; reflexivity
+    | rewrite Hp2; cbn; intros n1 E1; discriminate
+    | cbn [at_ past_dd]; intros; discriminate
+    | intros; discriminate
+    | match goal with |- (forall w r, hnd ?ll = _ -> _) /\ _ => apply (refs_sub _ ls t _ ll IC Hl eq_refl) end;
+      unfold nrefs; cbn [its at_ pc_refs]; intros c1 Hc1; rewrite app_nil_r in Hc1;
+      first [ apply in_or_app; left; exact Hc1
+            | apply its_refs_setit in Hc1; destruct Hc1 as [Hc1|Hc1]; [subst; apply in_or_app; right; left; reflexivity|apply in_or_app; left; exact Hc1] ]
+    | unfold thrC; cbn [at_]; exact I ]).
+  (* 5. steps of the mutex holder that keep the list and the log as InvC sees them *)
+  all: try (
+    match type of IA with InvA ?g _ => match goal with |- InvC ?gg (upd _ _ ?ll) =>
+      assert (SV : sameV g gg None) by
+        (unfold thrB in Tt; cbn [at_ hnd] in Tt; try unfold privR in Tt;
+         repeat first [apply sameV_fault | apply sameV_pos | apply sameV_tail];
+         first [ apply sameV_refl
+               | apply sameV_alloc; [intros z1 H1; apply (zlog_lt _ ls z1 IB H1)|first [left; reflexivity|right; eexists; reflexivity]]
+               | apply sameV_construct_rec; tauto
+               | apply sameV_setz_priv; tauto
+               | (apply sameV_setn; [apply (wtarget_isnode g ls t _ _ IA Hl); reflexivity|right; reflexivity|cbn; auto])
+               | (apply sameV_heap; [reflexivity| |reflexivity|reflexivity]; cbn [lst commit apply_m]; apply remove_nat_notin;
+                  match goal with H : ndel (gnode _ ?cc) = true |- _ =>
+                    let G0 := fresh "G0" in
+                    destruct (hpc_holder g ls t _ IA Hl eq_refl) as [Ehp _]; pose proof (a_gs _ _ IA) as G0; rewrite Ehp in G0; cbn [at_] in G0;
+                    apply (step_E_ld0_noop g _ cc G0 (t_refs _ _ (a_thr _ _ IA t _ Hl) cc (in_or_app _ _ _ (or_intror (or_introl eq_refl)))) H) end) ]);
+      destruct (h_views g gg ls t _ ll IA Hl eq_refl (ltac:(autorewrite with wm; reflexivity))) as (Hp1 & Hp2 & Hm);
+      eapply (InvC_frameV2 g gg ls t _ ll None IA IB IC Hl SV)
+    end end;
+    [ | | cbn [at_ past_dd]; intros; discriminate | intros; discriminate | | unfold thrC; cbn [at_]; exact I ]).
+  (* enode *)
+  all: try (match goal with |- enode _ _ = enode _ _ => unfold enode; rewrite Hp1, Hp2; cbn [at_ erasing_node] end;
+            first [ reflexivity
+                  | (unfold thrB in Tt; cbn [at_] in Tt; unfold privR in Tt; destruct Tt as ([Q1 Q2] & Q3 & Q4);
+                     match goal with |- context [do_construct ?g0 ?zz (BRec ?r)] => destruct (views_construct_rec g0 zz r Q1 Q3) as (V1 & V2 & V3 & V4) end;
+                     unfold znd; rewrite V3; reflexivity)
+                  | (unfold thrB in Tt; cbn [at_] in Tt; unfold privR in Tt; destruct Tt as ([Q1 Q2] & _);
+                     unfold znd; rewrite ?grec_setz_eq by (apply isrec_lt; exact Q1); reflexivity) ]).
+  (* pnode *)
+  all: try (match goal with |- forall n, pnode _ = Some n -> _ => rewrite Hp2; cbn [at_ pnode priv_node]; intros n1 E1 end;
+            first [ discriminate
+                  | (inversion E1; subst;
+                     match goal with |- cs_of _ ?nn = _ =>
+                       assert (pnode (hpc g ls) = Some nn) as Hpn0 by (rewrite Hp1; reflexivity);
+                       rewrite (v_cs _ _ _ SV nn (proj2 (proj2 (pnode_fresh g ls nn IA Hpn0))) (ltac:(discriminate))); apply (c_pn _ _ IC nn Hpn0) end) ]).
+  (* references *)
+  all: try (match goal with |- (forall w r, hnd ?ll = _ -> _) /\ _ => apply (refs_sub _ ls t _ ll IC Hl eq_refl) end;
+            unfold nrefs; cbn [its at_ pc_refs]; intros c1 Hc1; apply in_app_or in Hc1; destruct Hc1 as [Hc1|Hc1];
+            [apply in_or_app; left; exact Hc1|apply in_or_app; right; cbn [In] in *; first [exact Hc1 | tauto]]).
+  all: try (match goal with |- forall n, pnode _ = Some n -> _ => rewrite Hp2; cbn [at_ pnode priv_node]; intros n1 E1 end;
+            inversion E1; subst;
+            match type of IA with InvA ?g0 _ => match goal with |- cs_of _ ?nn = _ =>
+              assert (pnode (hpc g0 ls) = Some nn) as Hpn0 by (rewrite Hp1; reflexivity); apply (c_pn _ _ IC nn Hpn0) end end).
+  all: try (match goal with |- enode _ _ = enode _ _ => unfold enode; rewrite Hp1, Hp2; cbn [at_ erasing_node] end;
+            unfold thrB in Tt; cbn [at_] in Tt; unfold privR in Tt; destruct Tt as ([Q1 Q2] & _);
+            change (znd (with_fault (setz g z (z_next (grec g z) old))) z) with (znd (setz g z (z_next (grec g z) old)) z);
+            unfold znd; rewrite grec_setz_eq by (apply isrec_lt; exact Q1); reflexivity).
+  (* erase reads the successor of the node it is about to unlink *)
+  all: try (match goal with |- (forall w r, hnd ?ll = _ -> _) /\ _ => apply (refs_new _ ls t _ ll IA IB IC Hl eq_refl) end;
+            [ apply (refs_registered _ ls t _ c0 IC Hl); unfold nrefs; cbn [its at_ pc_refs]; apply in_or_app; right; left; reflexivity
+            | unfold nrefs; cbn [its at_ pc_refs]; intros c1 Hc1; apply in_app_or in Hc1; destruct Hc1 as [Hc1|Hc1];
+              [left; apply in_or_app; left; exact Hc1|];
+              cbn [In] in Hc1; destruct Hc1 as [<-|Hc1]; [left; apply in_or_app; right; left; reflexivity|];
+              right; right; exists c0; split; [apply in_or_app; right; left; reflexivity|];
+              unfold nx; destruct (nnext (gnode _ c0)); cbn in Hc1; [destruct Hc1 as [<-|[]]; reflexivity|destruct Hc1] ]).
+  all: try (unfold thrC in *; cbn [at_] in *; intros k1 Hk1; unfold znd in Hk1; rewrite grec_destroy in Hk1;
+            unfold thrB in Tt; cbn [at_] in Tt; destruct Tt as ((Rn0 & _) & _);
+            rewrite cs_of_destroy; destruct (Nat.eqb_spec k1 n) as [E1|];
+            [exfalso; subst k1; pose proof (b_node _ _ IB n n (inlog_In _ _ Rn0) Hk1) as Hnn;
+             rewrite (isrec_isnode _ _ (b_rec _ _ IB n (inlog_In _ _ Rn0))) in Hnn; discriminate|apply Tc; exact Hk1]).
+  (* 6. erase of an already erased node *)
+  all: try (
+    match goal with H : ndel (gnode ?g ?cc) = true |- InvC ?gg (upd _ _ ?ll) =>
+      destruct (hpc_holder g ls t _ IA Hl eq_refl) as [Ehp _]; pose proof (a_gs _ _ IA) as G0; rewrite Ehp in G0; cbn [at_] in G0;
+      assert (Pc0 : pubn g cc) by (apply (t_refs _ _ Ta); apply in_or_app; right; left; reflexivity);
+      destruct (step_E_ld0_noop g _ cc G0 Pc0 H) as [Hnl _];
+      assert (SV : sameV g gg None) by
+        (repeat apply sameV_fault; apply sameV_heap; [reflexivity| |reflexivity|reflexivity]; cbn [lst commit apply_m]; apply remove_nat_notin; exact Hnl);
+      destruct (h_views g gg ls t _ ll IA Hl eq_refl (ltac:(autorewrite with wm; reflexivity))) as (Hp1 & Hp2 & Hm);
+      eapply (InvC_frameV2 g gg ls t _ ll None IA IB IC Hl SV)
+    end;
+    [ unfold enode; rewrite Hp1, Hp2; reflexivity
+    | rewrite Hp2; cbn; intros n1 E1; discriminate
+    | cbn [at_ past_dd]; intros; discriminate
+    | intros; discriminate
+    | match goal with |- (forall w r, hnd ?ll = _ -> _) /\ _ => apply (refs_new _ ls t _ ll IA IB IC Hl eq_refl) end;
+      [ apply (refs_registered _ ls t _ c0 IC Hl); unfold nrefs; cbn [its at_ pc_refs]; apply in_or_app; right; left; reflexivity
+      | unfold nrefs; cbn [its at_ pc_refs]; intros c1 Hc1; apply in_app_or in Hc1; destruct Hc1 as [Hc1|Hc1];
+        [left; apply in_or_app; left; exact Hc1|];
+        right; right; exists c0; split; [apply in_or_app; right; left; reflexivity|];
+        unfold nx; destruct (nnext (gnode _ c0)); cbn in Hc1; [destruct Hc1 as [<-|[]]; reflexivity|destruct Hc1] ]
+    | unfold thrC; cbn [at_]; exact I ]).
+  (* 7. the holder writes to its private, unpublished node *)
+  all: try (
+    match type of Hl with nth_error _ _ = Some {| prog := _; at_ := ?pp; hnd := _; its := _ |} =>
+      match pp with P_constr _ _ => idtac | PF_next _ _ => idtac end end;
+    destruct (hpc_holder g ls t _ IA Hl eq_refl) as [Ehp _]; pose proof (a_gs _ _ IA) as G0; rewrite Ehp in G0; cbn [at_] in G0;
+    pose proof (gs_hold _ _ G0) as Hh0; cbn [hold_ok] in Hh0; unfold fresh_node in Hh0;
+    assert (Hin0 : isnode g n = true) by (apply (wtarget_isnode g ls t _ _ IA Hl); reflexivity);
+    assert (Hdl0 : dl g n = false) by (first [tauto | (destruct Hh0 as (_ & Hg0 & _); unfold dl; rewrite Hg0; reflexivity)]);
+    assert (Hnl0 : ~ In n (lst g)) by tauto;
+    match goal with |- InvC ?gg (upd _ _ ?ll) =>
+      assert (SV : sameV g gg (Some n)) by
+        (repeat apply sameV_fault;
+         first [ apply sameV_construct_node; [exact Hin0|reflexivity|reflexivity|tauto|];
+                 intros Hz0; pose proof (b_rec _ _ IB n Hz0) as Hr0; rewrite (isnode_isrec _ _ Hin0) in Hr0; discriminate
+               | apply sameV_setn; [exact Hin0|left; reflexivity|cbn; auto] ]);
+      destruct (h_views g gg ls t _ ll IA Hl eq_refl (ltac:(autorewrite with wm; reflexivity))) as (Hp1 & Hp2 & Hm);
+      eapply (InvC_frameV2 g gg ls t _ ll (Some n) IA IB IC Hl SV)
+    end;
+    [ unfold enode; rewrite Hp1, Hp2; reflexivity
+    | rewrite Hp2; cbn [at_ pnode priv_node]; intros n1 E1; inversion E1; subst n1
+    | cbn [at_ past_dd]; intros; discriminate
+    | intros k1 E1; inversion E1; subst k1; split; [exact Hnl0|split; [unfold enode; rewrite Hp1; discriminate|]];
+      intros z1 Hz1 Hk1; destruct (c_recn _ _ IC z1 n Hz1 Hk1) as (_ & D1 & _); congruence
+    | match goal with |- (forall w r, hnd ?ll = _ -> _) /\ _ => apply (refs_sub _ ls t _ ll IC Hl eq_refl) end; intros c1 Hc1; exact Hc1
+    | unfold thrC; cbn [at_]; exact I ]).
+  all: try (rewrite cs_of_construct, Nat.eqb_refl; destruct Hh0 as (Hc0 & _); rewrite Hc0; reflexivity).
+  all: try (change (cs_of (with_fault (setn g n (n_next (gnode g n) (Some old)))) n) with (cs_of (setn g n (n_next (gnode g n) (Some old))) n)).
+  all: try (rewrite cs_of_setn; apply (c_pn _ _ IC n); rewrite Ehp; reflexivity).
+  (* 8. publication, unlink, node reclamation, record reclamation *)
+  all: try (apply (stepC_P_e1 g ls t IA IB IC pr o n _ its0 _ Hl); auto; fail).
+  all: try (apply (stepC_PF_head g ls t IA IB IC pr n _ its0 Hl)).
+  all: try (apply (stepC_PB_next g ls t IA IB IC pr n old _ its0 Hl)).
+  all: try (apply (stepC_E_s1 g ls t IA IB IC pr it c0 nx0 _ nx _ its0 _ Hl); reflexivity).
+  all: try (apply (stepC_U_dd g ls t IA IB IC pr n n0 _ its0 Hl)).
+  all: try (apply (stepC_U_df g ls t IA IB IC pr n n0 _ its0 Hl)).
+  all: try (apply (stepC_U_zf g ls t IA IB IC pr n _ _ its0 Hl)).
+Qed.
+
+(* ---------- reachable states ---------- *)
+Definition Inv3 (g : glob) (ls : list loc) : Prop := InvA g ls /\ InvB g ls /\ InvC g ls.
+Lemma Inv3_step g ls t c l g' l' es :
+  Inv3 g ls -> nth_error ls t = Some l -> tstep t c g l = Some (g', l', es) -> Inv3 g' (upd ls t l').
+Proof.
+  intros (IA & IB & IC) Hl Hs. split; [eapply InvA_step; eauto|split; [eapply InvB_step; eauto|eapply InvC_step; eauto]].
+Qed.
+Lemma InvC_init unf progs : InvC (gl (init unf progs)) (thr (init unf progs)).
+Proof.
+  assert (P : forall u, pcof (thr (init unf progs)) u = Idle) by (intros u; apply locof_init).
+  assert (Hh : hpc (gl (init unf progs)) (thr (init unf progs)) = Idle) by reflexivity.
+  constructor.
+  - intros k [].
+  - intros n E. rewrite Hh in E. discriminate.
+  - intros k E. unfold enode in E. rewrite Hh in E. discriminate.
+  - intros z k [].
+  - intros z z' k [].
+  - intros z k [[] _].
+  - intros r [[] _].
+  - intros u l w r Hu Hl. cbn [thr init] in Hu. rewrite nth_error_map in Hu. destruct (nth_error progs u); [|discriminate].
+    cbn in Hu. inversion Hu; subst l. discriminate.
+  - intros u l Hu _. cbn [thr init] in Hu. rewrite nth_error_map in Hu. destruct (nth_error progs u); [|discriminate].
+    cbn in Hu. inversion Hu; subst l. reflexivity.
+  - intros u l Hu. cbn [thr init] in Hu. rewrite nth_error_map in Hu. destruct (nth_error progs u); [|discriminate].
+    cbn in Hu. inversion Hu; subst l. exact I.
+Qed.
+Lemma R_Inv3 unf progs s : R unf progs s -> Inv3 (gl s) (thr s).
+Proof.
+  intros H. eapply reachable_inv; [apply Inv3_step|split; [apply InvA_init|split; [apply InvB_init|apply InvC_init]]|exact H].
+Qed.
+
+(* ---------- no step ever faults ---------- *)
+Lemma dd_constr g ls t l n d : InvA g ls -> InvB g ls -> InvC g ls -> nth_error ls t = Some l ->
+  at_ l = U_dd n (Some d) -> cs_of g d = Some Constr.
+Proof.
+  intros IA IB IC Hl Hat. pose proof (b_thr _ _ IB t l Hl) as T. unfold thrB in T. rewrite Hat in T. destruct T as ((Rn & _) & Cs & Ed). symmetry in Ed.
+  apply (c_pend _ _ IC n d Rn Ed). intros u. destruct (Nat.eq_dec u t) as [->|Hu]; [rewrite (pcof_at _ _ _ Hl), Hat; reflexivity|].
+  apply (reclaimer_alone g ls t IA IB l n Hl); [rewrite Hat; reflexivity|exact Hu].
+Qed.
+
+Lemma fault_construct g k b : cs_of g k = Some Alloc -> fault (fst (do_construct g k b)) = fault g /\ unfixed (fst (do_construct g k b)) = unfixed g.
+Proof.
+  intros H. destruct (construct_fields g k b) as (_ & _ & _ & _ & _ & F & _ & _ & _ & _ & _ & F12).
+  apply cs_is_iff in H. rewrite H in F12. rewrite F12, orb_false_r. auto.
+Qed.
+Lemma fault_destroy g k : cs_of g k = Some Constr -> fault (fst (do_destroy g k)) = fault g /\ unfixed (fst (do_destroy g k)) = unfixed g.
+Proof.
+  intros H. destruct (destroy_fields g k) as (_ & _ & _ & _ & _ & F & _ & _ & _ & _ & _ & F12).
+  apply cs_is_iff in H. rewrite H in F12. rewrite F12, orb_false_r. auto.
+Qed.
+Lemma fault_dealloc g k : cs_of g k = Some Destr -> fault (fst (do_dealloc g k)) = fault g /\ unfixed (fst (do_dealloc g k)) = unfixed g.
+Proof.
+  intros H. destruct (dealloc_fields g k) as (_ & _ & _ & _ & _ & F & _ & _ & _ & _ & _ & F12).
+  apply cs_is_iff in H. rewrite H in F12. rewrite F12, orb_false_r. auto.
+Qed.
+
+Lemma step_no_fault g ls t c l g' l' es :
+  Inv3 g ls -> unfixed g = false -> nth_error ls t = Some l -> tstep t c g l = Some (g', l', es) ->
+  fault g' = fault g /\ unfixed g' = unfixed g.
+Proof.
+  intros (IA & IB & IC) Hu Hl Hs.
+  pose proof (b_thr _ _ IB t l Hl) as Tt. pose proof (c_thr _ _ IC t l Hl) as Tc.
+  pose proof (log_ledger_ok g ls t l (conj IA IB) Hl) as Tl.
+  destruct l as [pr p h its0]. destruct p; step_cases2 Hs; fold_fst; cbn [at_] in *.
+  all: try (match goal with H : okn _ ?k = false |- _ =>
+              exfalso; rewrite (node_access_ok _ ls t _ k IA IB IC Hl eq_refl) in H; discriminate end).
+  all: try (match goal with H : okz _ ?k = false |- _ =>
+              exfalso; rewrite (log_access_ok _ ls t _ k (conj IA IB) Hl eq_refl) in H; discriminate end).
+  all: try (split; reflexivity).
+  all: try (split; [apply modc_fields|apply modc_fields]).
+  all: try (apply fault_construct; exact Tl).
+  all: try (apply fault_destroy; exact Tl).
+  all: try (apply fault_dealloc; exact Tl).
+  all: try (unfold thrC in Tc; congruence).
+  all: try (apply fault_construct;
+            destruct (hpc_holder g ls t _ IA Hl eq_refl) as [Ehp _]; pose proof (gs_hold _ _ (a_gs _ _ IA)) as H; rewrite Ehp in H; cbn [at_ hold_ok] in H; tauto).
+  all: try (split; [etransitivity; [|apply modc_fields]; reflexivity|etransitivity; [|apply modc_fields]; reflexivity]).
+  all: try (apply fault_destroy; apply (dd_constr g ls t _ n n0 IA IB IC Hl eq_refl)).
+  all: try (apply fault_dealloc; unfold thrC in Tc; exact Tc).
+Qed.
+
+Definition Inv4 (g : glob) (ls : list loc) : Prop := Inv3 g ls /\ unfixed g = false /\ fault g = false.
+Lemma Inv4_step g ls t c l g' l' es :
+  Inv4 g ls -> nth_error ls t = Some l -> tstep t c g l = Some (g', l', es) -> Inv4 g' (upd ls t l').
+Proof.
+  intros (I3 & Hu & Hf) Hl Hs. destruct (step_no_fault g ls t c l g' l' es I3 Hu Hl Hs) as [A B].
+  split; [eapply Inv3_step; eauto|split; congruence].
+Qed.
+Lemma R_Inv4 progs s : R false progs s -> Inv4 (gl s) (thr s).
+Proof.
+  intros H. eapply reachable_inv; [apply Inv4_step| |exact H].
+  split; [split; [apply InvA_init|split; [apply InvB_init|apply InvC_init]]|split; reflexivity].
+Qed.
+
+(* C05 / C13: for the repaired source, no program and no schedule ever reaches a fault: no access to a
+   cell that is not alive, no illegal allocator call *)
+Theorem no_fault progs s : R false progs s -> fault (gl s) = false.
+Proof. intros H. apply (R_Inv4 _ _ H). Qed.
+
+(* every node an iterator or a register of any thread refers to is a constructed node cell *)
+Theorem reachable_alive unf progs s t l c : R unf progs s -> nth_error (thr s) t = Some l -> In c (nrefs l) -> okn (gl s) c = true.
+Proof. intros HR. destruct (R_Inv3 _ _ _ HR) as (IA & IB & IC). apply (refs_alive _ _ IA IB IC). Qed.
+
+(* the closure that makes ++ safe: while a handle's record r is owned, everything reachable through next
+   pointers from a node it covers is covered, hence constructed *)
+Theorem covered_closed unf progs s r k m : R unf progs s ->
+  inlog (gl s) r -> zown (gl s) r <> None -> covers (gl s) (thr s) r k -> nx (gl s) k = Some m ->
+  covers (gl s) (thr s) r m /\ okn (gl s) m = true.
+Proof.
+  intros HR Hr Ho Hk Hm. destruct (R_Inv3 _ _ _ HR) as (IA & IB & IC).
+  pose proof (c_cov _ _ IC r Hr Ho k m Hk Hm) as C. split; [exact C|].
+  destruct (covered_constr _ _ IA IB IC r m Hr Ho C). apply okn_iff. auto.
+Qed.
+
+(* a node is destroyed only by a reclaimer whose region contains the node's record: every record at least
+   as old as that record is unowned, i.e. every handle that was registered when the node was erased
+   has been released *)
+Theorem destroy_only_unprotected unf progs s t l n d r : R unf progs s ->
+  nth_error (thr s) t = Some l -> at_ l = U_dd n (Some d) ->
+  inlog (gl s) r -> zown (gl s) r <> None -> ~ covers (gl s) (thr s) r d.
+Proof.
+  intros HR Hl Hat Hr Ho Hc. destruct (R_Inv3 _ _ _ HR) as (IA & IB & IC).
+  pose proof (b_thr _ _ IB t l Hl) as T. unfold thrB in T. rewrite Hat in T. destruct T as ((Rn & Rlt & Rbt & Run) & Cs & Ed). symmetry in Ed.
+  destruct (c_recn _ _ IC n d (inlog_In _ _ Rn) Ed) as (D1 & D2 & D3).
+  destruct Hc as [A|[A|(z & Z1 & Z2 & Z3)]]; [auto| |].
+  - destruct (c_en _ _ IC d A) as (_ & _ & _ & _ & _ & E6). apply (E6 n (inlog_In _ _ Rn) Ed).
+  - assert (z = n) by (apply (c_uniq _ _ IC z n d (inlog_In _ _ Z1) (inlog_In _ _ Rn) Z2 Ed)). subst z.
+    apply Ho. apply Run; [exact Hr|lia].
+Qed.
